@@ -396,7 +396,10 @@ impl ContextStatistics {
         }
         let last_read = self.last_read.load(Ordering::Relaxed);
         let now = SystemTime::now().unix_timestamp();
-        now - last_read > timeout.as_millis() as u64
+        // a period whose millisecond count does not fit 64 bits never elapses (cast with `as` it wrapped
+        // around to a short one); a clock that stepped back has not elapsed either
+        let timeout = u64::try_from(timeout.as_millis()).unwrap_or(u64::MAX);
+        now.saturating_sub(last_read) > timeout
     }
 }
 
